@@ -427,6 +427,13 @@ func c22Run(c c22Case) verifkit.Result {
 	default:
 		panic("c22: family " + c.Family)
 	}
+	// The proxy only sees a command if the client's packet is a known serverbound play
+	// packet of that protocol (an unknown id is relayed to the backend as raw bytes).
+	if reg := state.Play.ServerBound.ProtocolRegistry(proto.Protocol(c.Protocol)); reg != nil {
+		if _, ok := reg.PacketID(sent); !ok {
+			return verifkit.Fail("command-packet-not-registered:"+c.Family, "protocol %d: %T, the packet a client of this version sends for a command, is not registered serverbound in the play state: its commands bypass the proxy", c.Protocol, sent)
+		}
+	}
 	var sentCopy proto.Packet
 	switch x := sent.(type) {
 	case *chat.SessionPlayerCommand:
